@@ -367,7 +367,7 @@ func (s *Session) rangeFacts(v Val) T {
 		}
 		fs = append(fs, Ge(x, I(0)))
 		if strings.HasSuffix(l.Path, "#len") || strings.HasSuffix(l.Path, "#off") {
-			fs = append(fs, Le(x, bigT(maxInt64)))
+			fs = append(fs, Le(x, bigT(maxSliceLen)))
 		}
 	}
 	return And(fs...)
